@@ -328,4 +328,60 @@ example : ((allItems sample)[1]?.map Item.nonNum) = some true := by decide
 example : readVars true (renderProg sample) 16 [false] = ⟨[.num []], some (2, some 16), 16⟩ := by decide
 example : erl (lineTable 0 sample) 16 = 10 := by decide
 
+/-! ### a READ whose assignment is refused (Overflow into a `%` variable) does not consume the item -/
+
+/-- without refusals `readVarsR` is `readVars` -/
+theorem readVarsR_no_refusal (fixed : Bool) (code : Bytes) (pos : Nat) (ts : List Bool) :
+    readVarsR fixed code pos (ts.map (fun t => (t, none))) = readVars fixed code pos ts := by
+  induction ts generalizing pos with
+  | nil => rfl
+  | cons t ts ih =>
+    simp only [List.map_cons, readVarsR, readVars]
+    cases readEntry fixed code pos t with
+    | ok v p => simp only [ih]
+    | err e a ep => rfl
+
+/-- **refused_read_keeps_item.**  If the variables `ts` are read without error and the next variable's item can be
+    read but its assignment is refused with error `e`, the READ statement ends with `e` raised at the READ statement
+    itself, the earlier variables hold exactly what a READ of `ts` alone delivers, and the data pointer is the
+    pointer after `ts`: the refused item (and everything behind it) is still there for the next READ, which gets
+    exactly what it would have got had the refused variable never been listed. -/
+theorem refused_read_keeps_item (fixed : Bool) (code : Bytes) (pos : Nat) (ts : List Bool) (t : Bool) (e : Nat)
+    (rest : List (Bool × Option Nat)) (v : Val) (p' : Nat)
+    (hok : (readVars fixed code pos ts).err = none)
+    (hitem : readEntry fixed code (readVars fixed code pos ts).pos t = .ok v p') :
+    let out := readVarsR fixed code pos (ts.map (fun t => (t, none)) ++ (t, some e) :: rest)
+    out.vals = (readVars fixed code pos ts).vals ∧ out.err = some (e, none) ∧
+    out.pos = (readVars fixed code pos ts).pos ∧
+    ∀ next : List Bool, readVars fixed code out.pos next = readVars fixed code (readVars fixed code pos ts).pos next := by
+  induction ts generalizing pos with
+  | nil =>
+    simp only [readVars] at hitem
+    simp [readVarsR, readVars, hitem]
+  | cons t0 ts ih =>
+    simp only [readVars] at hok hitem
+    simp only [List.map_cons, List.cons_append, readVarsR, readVars]
+    cases he : readEntry fixed code pos t0 with
+    | ok v0 p0 =>
+      rw [he] at hok hitem
+      simp only at hok hitem
+      have := ih p0 hok hitem
+      simp only at this
+      obtain ⟨h1, h2, h3, h4⟩ := this
+      simp only [h1, h2, h3]
+      exact ⟨trivial, trivial, trivial, fun _ => trivial⟩
+    | err e0 a ep =>
+      rw [he] at hok
+      simp at hok
+
+/-- non-vacuity, and the contrast with a successful READ, on a concrete program: `10 DATA 40000,7` —
+    READ into a refused (`%`) variable leaves the pointer at 0 so that the next READ still gets `40000`;
+    the same READ accepted moves on to `7`. -/
+example :
+    let code : Bytes := [0, 0, 0, 10, 0, 0x84, 32, 52, 48, 48, 48, 48, 44, 55, 0, 0, 0, 0]
+    (readVarsR true code 0 [(false, some Gen.E.overflow)]).pos = 0 ∧
+    (readVarsR true code 0 [(false, some Gen.E.overflow)]).err = some (6, none) ∧
+    (readVars true code 0 [false]).vals = [.num [52, 48, 48, 48, 48]] ∧
+    (readVars true code (readVars true code 0 [false]).pos [false]).vals = [.num [55]] := by decide +kernel
+
 end PcbV.C22
